@@ -135,6 +135,30 @@ type Sim struct {
 
 var cur atomic.Pointer[Sim]
 
+// site coverage: how often each woven site was passed by a goroutine under the simulator's
+// control, over the life of the worker process (a reach measure for the evidence)
+var (
+	siteMu   sync.Mutex
+	siteHits = map[string]uint64{}
+)
+
+func hit(site string) {
+	siteMu.Lock()
+	siteHits[site]++
+	siteMu.Unlock()
+}
+
+// SiteHits returns a copy of the site coverage counters.
+func SiteHits() map[string]uint64 {
+	siteMu.Lock()
+	defer siteMu.Unlock()
+	out := make(map[string]uint64, len(siteHits))
+	for k, v := range siteHits {
+		out[k] = v
+	}
+	return out
+}
+
 // Active reports whether a simulation is running (woven code is otherwise pass-through).
 func Active() bool { s := cur.Load(); return s != nil && !s.free.Load() }
 
@@ -196,6 +220,7 @@ func (s *Sim) control(g *G, site string) {
 }
 
 func (s *Sim) yield(g *G, site string) {
+	hit(site)
 	if !s.isCurrent(g) {
 		s.park(g, site)
 		return
